@@ -675,7 +675,9 @@ def check(run):
 
     run.log("encoders done")
     run.cov["evaluations"] = evals
-    run.cov["distinct_nontrivial"] = len(distinct)
+    run.cov["distinct_nontrivial"] = len(distinct) + dist.get("fold_scan_code_points_x_positions", 0)
+    run.cov["distinct_breakdown"] = {"query_strings_sessions_encoder_inputs (set size)": len(distinct),
+                                     "fold_scan (one query per (pattern position, Unicode scalar value), distinct by construction)": dist.get("fold_scan_code_points_x_positions", 0)}
     run.cov["rule"] = ("classification: exhaustive strings of 1..%d tokens over a %d-token vocabulary; every valid token sequence with one token deleted/inserted/replaced/duplicated/swapped; "
                        "all spellings (case x quotes x leading/trailing blanks x ';'); character edits, junk before/after, embedding, two commands per message, tab/newline/NBSP for space; "
                        "numeric arguments of 1..40 digits incl. leading zeros and the i64/usize boundaries; non-ASCII look-alikes and invalid UTF-8; all 1,112,063 Unicode scalar values in each letter class (fold scan). "
@@ -865,8 +867,10 @@ def rand_text(rng, n):
 def encoders(run, binp, quick, distinct, samples, dist):
     rng = run.rng
     items = []
-    fixed = ["", "x", "SET SHARD", "SELECT 1", "a" * 255, "a" * 256, "b" * 4000, "z" * 20000, "with\0nul", "é中", "'", "\\"]
-    texts = fixed + [rand_text(rng, rng.choice([0, 1, 2, 5, 17, 64, 300])) for _ in range(150 if quick else 3000)]
+    fixed = ["", "x", "SET SHARD", "SELECT 1", "a" * 255, "a" * 256, "b" * 4000, "with\0nul", "é中", "'", "\\"]
+    if not quick:
+        fixed.append("z" * 20000)
+    texts = fixed + [rand_text(rng, rng.choice([0, 1, 2, 5, 17, 64, 300])) for _ in range(100 if quick else 3000)]
     for t in texts:
         u = rand_text(rng, rng.choice([0, 1, 7, 40])) if rng.random() < 0.7 else rng.choice(fixed)
         items.append(("ok", t, ""))
